@@ -149,7 +149,7 @@ where
             encoding,
             from_header.line_encoding(),
             comp_dir,
-            comp_name,
+            comp_name.clone(),
             comp_file_info,
         );
 
@@ -161,8 +161,15 @@ where
             // something there makes the indexing easier.
             0
         } else {
-            // We don't add the first file to `files`, but still allow
-            // it to be referenced from converted instructions.
+            // In DWARF 5 file index 0 is the primary source file and rows may
+            // (and, as emitted by clang, do) refer to it. `write::LineProgram`
+            // offers no id for its implicit file 0, so register the same file
+            // once more and use that entry for index 0.
+            files.push(program.add_file(
+                comp_name,
+                program.default_directory(),
+                comp_file_info,
+            ));
             1
         };
 
@@ -259,13 +266,19 @@ where
                                     program.row().op_index = from_row.op_index();
                                     program.row().file = {
                                         let file = from_row.file_index();
-                                        if file > files.len() as u64 {
-                                            return Err(write::ConvertError::InvalidFileIndex);
+                                        // `files` starts at file 1 for DWARF <= 4
+                                        // and at file 0 for DWARF 5.
+                                        let index = if program.version() <= 4 {
+                                            file.checked_sub(1)
+                                        } else {
+                                            Some(file)
+                                        };
+                                        match index.and_then(|i| files.get(i as usize)) {
+                                            Some(id) => *id,
+                                            None => {
+                                                return Err(write::ConvertError::InvalidFileIndex)
+                                            }
                                         }
-                                        if file == 0 && program.version() <= 4 {
-                                            return Err(write::ConvertError::InvalidFileIndex);
-                                        }
-                                        files[(file - 1) as usize]
                                     };
                                     program.row().line = match from_row.line() {
                                         Some(line) => line.get(),
